@@ -71,6 +71,17 @@ def build_app(state):
         app.response.set_cookie("tenant", "blog")
         return "blog:" + app.request.query_string
 
+    @app.route("/logout")
+    def logout():
+        app.response.delete_cookie("sid")
+        return "bye"
+
+    @app.route("/admin/logout")
+    def admin_logout():
+        app.response.delete_cookie("sid", path="/admin", domain="admin.example", secure=True, httponly=True)
+        app.response.set_cookie("seen", "1", max_age=5, path="/admin")
+        return "bye admin"
+
     @app.route("/shop/w")
     def shop():
         app.response.headers["X-Tenant"] = "shop"
@@ -121,6 +132,8 @@ def env_of(kind, qs="", accept=None):
             env["HTTP_HOST"] = "shop.example"
         elif kind != "vh-none":
             env["HTTP_X_FORWARDED_HOST"] = kind[3:] + ".example"
+    elif kind in ("logout", "admin-logout"):
+        env["PATH_INFO"] = "/" + kind.replace("-", "/") if kind != "logout" else "/logout"
     elif kind == "404":
         env["PATH_INFO"] = "/nope"
     elif kind == "405":
@@ -155,7 +168,7 @@ def env_of(kind, qs="", accept=None):
 
 
 KINDS = ["ok", "404", "405", "badpath", "crash", "raise", "badchunk", "oversize", "body", "body2", "body6", "chunkbody",
-         "vh-blog", "vh-shop", "vh-none", "vh-direct"]
+         "vh-blog", "vh-shop", "vh-none", "vh-direct", "logout", "admin-logout"]
 
 
 def serve(app, env):
@@ -259,7 +272,7 @@ def queries(tier):
                      "ASCII string of <= 1 character, status written from %r, Accept json or not" % (k, STATUS),
                      timeout=150 if not T else 400, per_path_timeout=40, expect_cover=["ok"], family="retention"))
     firsts = KINDS
-    seconds = ["ok", "404", "badpath", "crash", "body", "body2", "badchunk", "oversize", "vh-blog", "vh-none"] if not T else KINDS
+    seconds = ["ok", "404", "badpath", "crash", "body", "body2", "badchunk", "oversize", "vh-blog", "vh-none", "logout"] if not T else KINDS
     for k1 in firsts:
         for k2 in seconds:
             for j2 in ((False,) if not T else (False, True)):
